@@ -107,7 +107,9 @@ Why(r) ==
                    ELSE IF row[6] # s.sha512 THEN "sha512" ELSE IF row[7] # s.sha3 THEN "sha3"
                    ELSE IF ValidUtf8(c) /\ row[8] # BoolText(HasByte(c, 97)) THEN "contains"
                    ELSE IF ValidUtf8(c) /\ row[9] # BoolText(HasPair(c, 35, 33)) THEN "contains"
-                   ELSE IF row[10] # ToString(ContentLen(c)) THEN "size" ELSE ""
+                   ELSE IF row[10] # ToString(ContentLen(c)) THEN "size"
+                   ELSE IF ValidUtf8(c) /\ row[11] # BoolText(HasPair(c, 97, 10)) THEN "contains-across-lines"
+                   ELSE IF ValidUtf8(c) /\ row[12] # "true" THEN "contains-empty-needle" ELSE ""
          bad == { i \in 1 .. Len(rows) : ids[i] # 0 /\ Bad(i) # "" }
      IN IF { ids[i] : i \in 1 .. Len(rows) } # all \/ Len(rows) # Cardinality(all) THEN "wrong-row-set"
         ELSE IF bad # {} THEN "wrong-" \o Bad(CHOOSE i \in bad : TRUE) ELSE "ok"
